@@ -17,11 +17,12 @@ WATCHDOG = {"quick": 1200, "thorough": 3300}
 REQUIRED_CLASSES = {t: ["goal:R=-inf", "goal:R=-1", "goal:R=0", "goal:R>1", "goal:0<R<1", "goal:R<-1", "cycle:R>1", "cycle:R<0",
                         "cycle:0<R<1", "cycle:on_R=0", "cycle:on_R=-1", "cycle:on_R=-inf", "cycle:on_R12", "diagram:fkm_goodman", "fkm_goodman:M2=0<M", "fkm_goodman:M2=M", "diagram:from_dict_rows_rotated", "cycle:upper=-0.0",
                         "diagram:five_segment", "five_segment:M4!=0", "matrix:from_to", "matrix:range_mean",
-                        "matrix:extra_level"]
+                        "matrix:extra_level", "matrix:counts_integer", "matrix:counts_float", "matrix:class_sums_beyond_count_dtype",
+                        "matrix:rows_in_arbitrary_order"]
                     for t in ("quick", "thorough")}
 REQUIRED_MONITORS = ["fkm_goodman==iso_damage_oracle", "path_independent:T(R2)oT(R1)==T(R2)", "idempotent", "fixed_point_at_goal",
                      "continuous_across_sector_borders", "non_decreasing_in_amplitude", "interfaces_agree",
-                     "matrix_conserves_cycles"]
+                     "matrix_conserves_cycles", "matrix_classes==plain_function_on_class_mids"]
 RULE = ("seeded cycles (amplitude > 0, any mean; also exactly on the rays R = -1, 0, R12, R23), FKM-Goodman (0 <= M2 <= M < 1) and "
         "five-segment parameter sets (incl. M4 != 0), targets R in {-inf, -1, 0, 0.1..0.9, < -1, > 1}; the real functions and "
         "accessors are compared with a geometric iso-damage oracle (pv/ref/haigh.py) and with each other; rainflow matrices "
@@ -269,18 +270,59 @@ def _matrix(case, ctx, rng, MS):
         levels = levels + [pd.Index([3, 7], name="element_id")]
         names = names + ["element_id"]
     idx = pd.MultiIndex.from_product(levels, names=names)
-    vals = rng.integers(0, 50, len(idx)).astype(float)
+    # counts as a rainflow counter stores them: floats, or integers of any width (class sums beyond the range of a narrow type)
+    cdt = ["float64", "int64", "int32", "int16", "uint16", "uint8", "float32"][int(rng.integers(0, 7))]
+    top = {"int16": 30000, "uint16": 60000, "uint8": 250, "float32": 50}.get(cdt, 50 if rng.random() < 0.7 else 2_000_000_000 if cdt in ("int64", "float64") else 2_000_000_000)
+    vals = rng.integers(0, top, len(idx)).astype(cdt)
+    ctx.tag("matrix:counts_" + ("float" if cdt.startswith("float") else "integer"))
     ser = pd.Series(vals, index=idx, name="cycles")
+    total = float(vals.astype(float).sum())
+    if not cdt.startswith("float") and total > float(np.iinfo(cdt).max):
+        ctx.tag("matrix:class_sums_beyond_count_dtype")
     if names[0] == "from":
         ctx.tag("matrix:diagonal_cells_occupied")      # from == to classes: range 0, must still be counted once
-    ctx.nontrivial(ser.sum() > 0)
-    M = case["M"]
-    res = ser.meanstress_transform.fkm_goodman(pd.Series({"M": M, "M2": case["M2"]}), Rg)
+    permuted = rng.random() < 0.5
+    if permuted:
+        ser = ser.iloc[rng.permutation(len(ser))]
+        ctx.tag("matrix:rows_in_arbitrary_order")
+    ctx.nontrivial(total > 0)
+    M, M2 = case["M"], case["M2"]
+    res = ser.meanstress_transform.fkm_goodman(pd.Series({"M": M, "M2": M2}), Rg)
     out = res.to_pandas() if hasattr(res, "to_pandas") else res._obj
+    fser = ser.astype(float)
     if extra:
-        got = out.groupby("element_id").sum().sort_index().to_numpy()
-        exp = ser.groupby("element_id").sum().sort_index().to_numpy()
+        got = out.astype(float).groupby("element_id").sum().sort_index().to_numpy()
+        exp = fser.groupby("element_id").sum().sort_index().to_numpy()
     else:
-        got, exp = np.array([out.sum()]), np.array([ser.sum()])
-    ctx.check("matrix_conserves_cycles", _close(got, exp, 1e-12), observed=got, expected=exp,
-              detail={"R_goal": Rg, "names": names, "bins": nb})
+        got, exp = np.array([float(out.astype(float).sum())]), np.array([float(fser.sum())])
+    detail = {"R_goal": Rg, "names": names, "bins": nb, "count_dtype": cdt, "rows_permuted": permuted, "M": M, "M2": M2}
+    ctx.check("matrix_conserves_cycles", _close(got, exp, 1e-12), observed=got, expected=exp, detail=detail)
+    # every class of the matrix is booked, with all its cycles, into the range class its transformed class-mid falls into
+    # (the plain function on the class mids says which); classes whose range lies within rounding of a class limit are
+    # left out of the judgement
+    lc = ser.load_collective
+    amp, mean = np.asarray(lc.amplitude, dtype=float), np.asarray(lc.meanstress, dtype=float)
+    with np.errstate(all="ignore"):
+        rg_ = 2.0 * np.asarray(MS.fkm_goodman(amp, mean, M, M2, Rg), dtype=float)
+    itv = out.index.get_level_values("range")
+    edges = np.unique(np.concatenate([np.asarray(itv.left, dtype=float), np.asarray(itv.right, dtype=float)]))
+    scale = max(float(np.max(np.abs(edges))), 1e-300)
+    if not np.all(np.isfinite(rg_)):
+        ctx.skip("matrix:transformed_range_not_finite")
+        return
+    tol = 1e-9 * scale
+    groups = np.asarray(fser.index.get_level_values("element_id") if extra else np.zeros(len(fser), dtype=int))
+    ogroups = np.asarray(out.index.get_level_values("element_id") if extra else np.zeros(len(out), dtype=int))
+    cnt, booked_all = fser.to_numpy(), out.astype(float).to_numpy()
+    ok, bad = True, None
+    for g in np.unique(groups):
+        for iv in itv.unique():
+            surely = (rg_ > iv.left + tol) & (rg_ < iv.right - tol) & (groups == g)
+            if iv.left == 0.0:
+                surely = (rg_ < iv.right - tol) & (groups == g)
+            maybe = (rg_ >= iv.left - tol) & (rg_ <= iv.right + tol) & (groups == g)
+            lo_, hi_ = float(cnt[surely].sum()), float(cnt[maybe].sum())
+            o_ = float(booked_all[(ogroups == g) & np.asarray(itv == iv)].sum())
+            if not (lo_ * (1 - 1e-12) <= o_ <= hi_ * (1 + 1e-12)):
+                ok, bad = False, {"range_class": str(iv), "element": int(g), "booked": o_, "from_class_mids_at_least": lo_, "at_most": hi_}
+    ctx.check("matrix_classes==plain_function_on_class_mids", ok, observed=bad, detail=detail)
